@@ -121,12 +121,11 @@ class MediaList(cssutils.util._NewListBase):
         # must be at least one value!
         if not atleastone:
             ok = False
-            self._wellformed = ok
             self._log.error('MediaQuery: No content.', error=xml.dom.SyntaxErr)
 
-        self._wellformed = ok
-
         if ok:
+            # a rejected text leaves the list as it was, wellformed or not
+            self._wellformed = True
             mediaTypes = []
             finalseq = cssutils.util.Seq(readonly=False)
             commentseqonly = cssutils.util.Seq(readonly=False)
